@@ -282,6 +282,104 @@ func runC18(c *Check) {
 	ruleConfigWritersTruncate(c, p)
 	c.Doc("C18-R6", "EO+VP: the flag visitor binds every visited flag itself to the configuration key (BindPFlag on every normal path, with the visited flag), so that a flag given on the command line always outranks the file.")
 	ruleEveryFlagBound(c, p)
+	c.Doc("C18-R7", "CS: the text encoder and decoder of every configuration leaf type with its own text codec are an inverse pair of the standard library applied to the whole value, with no transformation in between (what is written is what is read).")
+	ruleTextCodecsInverse(c, p)
+}
+
+// ruleTextCodecsInverse (C18-R7).
+func ruleTextCodecsInverse(c *Check, p *Prog) {
+	rule := "C18-R7"
+	inverse := map[string]string{
+		"(time.Duration).String": "time.ParseDuration",
+		"strconv.Itoa":           "strconv.Atoi",
+		"strconv.FormatInt":      "strconv.ParseInt",
+		"strconv.FormatUint":     "strconv.ParseUint",
+		"strconv.FormatBool":     "strconv.ParseBool",
+	}
+	n := 0
+	for _, fn := range p.Funcs {
+		pk := fnPkg(fn)
+		if pk == nil || pk.Pkg.Path() != configPkg || fn.Parent() != nil || fn.Name() != "MarshalText" || fn.Signature.Recv() == nil || fn.Synthetic != "" {
+			continue
+		}
+		recvT := fn.Signature.Recv().Type()
+		tn := recvT.String()
+		tn = tn[strings.LastIndex(tn, ".")+1:]
+		var dec *ssa.Function
+		for _, f2 := range p.Funcs {
+			if f2.Name() == "UnmarshalText" && f2.Parent() == nil && f2.Synthetic == "" && f2.Signature.Recv() != nil && strings.HasSuffix(f2.Signature.Recv().Type().String(), "."+tn) {
+				dec = f2
+			}
+		}
+		n++
+		inst := "config." + tn + " ⟂ MarshalText/UnmarshalText inverse"
+		if dec == nil {
+			c.Bad(rule, inst, fnName(fn), p.Pos(fn.Pos()), "the type has a text encoder but no text decoder: a saved configuration cannot be loaded back", nil)
+			continue
+		}
+		// encoder: every returned text is conv(F(receiver value)) for a known F
+		var encF string
+		okEnc := true
+		var why string
+		var rets []*Term
+		for _, b := range fn.Blocks {
+			if r, ok := b.Instrs[len(b.Instrs)-1].(*ssa.Return); ok && len(r.Results) > 0 {
+				rets = append(rets, TermOf(r.Results[0], &Ctx{Fn: fn}))
+			}
+		}
+		for _, rt := range rets {
+			t := rt.unconv()
+			if !(t.Op == "call" || t.Op == "invoke") || len(t.Args) == 0 {
+				okEnc, why = false, "the encoder does not return the output of a formatting function: "+trunc(t.String(), 80)
+				continue
+			}
+			name := t.Name
+			full := ""
+			for k := range inverse {
+				if strings.HasSuffix(k, name) || strings.HasSuffix(name, strings.TrimPrefix(k, "(")) || k == name {
+					full = k
+				}
+			}
+			if full == "" {
+				okEnc, why = false, "unknown formatting function "+name
+				continue
+			}
+			encF = full
+			// the argument is the receiver's value itself (a field of it), not a function of it
+			a := t.Args[0].unconv()
+			for a.Op == "field" {
+				a = a.Args[0]
+			}
+			if a.Op != "param" && !(a.Op == "load" && len(a.Args) == 1) && a.Op != "addrof" {
+				okEnc, why = false, "the value formatted is not the stored value itself but "+trunc(t.Args[0].String(), 80)+": what is written differs from what was configured"
+			}
+		}
+		// decoder: calls the inverse on the text and stores the result
+		okDec := encF != "" && callsNamed(dec, func(nm string) bool { return nm == inverse[encF] })
+		if okDec {
+			for _, b := range dec.Blocks {
+				for _, in := range b.Instrs {
+					if call, ok := in.(*ssa.Call); ok && commonName(call.Common()) == inverse[encF] {
+						a := TermOf(call.Common().Args[0], &Ctx{Fn: dec}).unconv()
+						if a.Op != "param" {
+							okDec, why = false, "the decoder parses "+trunc(a.String(), 60)+", not the text it was given"
+						}
+					}
+				}
+			}
+		} else if okEnc {
+			why = "the decoder does not apply " + inverse[encF] + ", the inverse of the encoder's " + encF
+		}
+		if okEnc && okDec {
+			c.OK(rule, inst, fnName(fn), p.Pos(fn.Pos()), "written with "+encF+" of the value, read with "+inverse[encF]+" of the text", true)
+		} else {
+			c.Bad(rule, inst, fnName(fn), p.Pos(fn.Pos()), why+": a configuration written to disk does not load back equal", nil)
+		}
+	}
+	if n == 0 {
+		c.Unk(rule, "text-codecs", "", "", "anchor lost: no type of the configuration package implements MarshalText")
+	}
+	c.MinInstances(rule, 1)
 }
 
 // ruleEveryFlagBound (C18-R6): viper ranks a bound, changed flag above the configuration file and
